@@ -10,9 +10,11 @@ import (
 // Runner evaluates one property's rules on a loaded program.
 type Runner func(c *core.Check)
 
-var registry = map[string]Runner{}
+var registry = map[string][]Runner{}
 
-func register(id string, r Runner) { registry[id] = r }
+// register adds a runner for a property; several files may contribute rules to
+// one property (they run in registration order on the same Check).
+func register(id string, r Runner) { registry[id] = append(registry[id], r) }
 
 // needSSA lists the properties whose rules use go/ssa (whole-program load).
 var needSSA = map[string]bool{}
@@ -21,7 +23,17 @@ var needSSA = map[string]bool{}
 func NeedsSSA(id string) bool { return needSSA[id] }
 
 // Get returns the runner of a property.
-func Get(id string) Runner { return registry[id] }
+func Get(id string) Runner {
+	rs := registry[id]
+	if len(rs) == 0 {
+		return nil
+	}
+	return func(c *core.Check) {
+		for _, r := range rs {
+			r(c)
+		}
+	}
+}
 
 // IDs lists the registered properties.
 func IDs() []string {
